@@ -1087,6 +1087,7 @@ static std::string peerOp(const std::vector<std::string> &t)
     std::size_t k = (t.size() > 2 ? std::strtoul(t[2].c_str(), nullptr, 10) : 0) % g_peerU.size();
     ::close(g_peerU[k].fd);
     g_peerU[k].fd = ::socket(AF_INET, SOCK_DGRAM, 0); // keep the slot (unbound socket, other port)
+    setNonBlock(g_peerU[k].fd);
   }
   return "-";
 }
